@@ -79,7 +79,7 @@ func init() {
 	addRules("C15", "R-COMMITSET", "R-COMMITSET-ALWAYS")
 	addRules("C16", "R-COMMITSET", "R-COMMITSET-ALWAYS", "R-MARKER")
 	addRules("C17", "R-GLOBALS")
-	addRules("C18", "R-LOCKMAP")
+	addRules("C18", "R-LOCKMAP", "R-CODEC")
 	addRules("C12", "R-RECOVER", "R-RECOVER-ORDER")
 	addRules("C13", "R-ZSCORE")
 	addRules("C09", "R-CODEC")
